@@ -122,6 +122,11 @@ func animCommon(prop string, p *AnimParams, o *animOutcome, x *X) (*Violation, b
 		return nil, false
 	}
 	if o.enc.AddErr != nil {
+		if at := o.enc.AddErrAt; at >= 0 && at < len(p.Spec.Frames) && p.Spec.Frames[at].Dur > 1<<24-1 {
+			// refusing a display time that one frame cannot store is the encoder's right
+			x.Count("unrepresentable_duration_refused", 1)
+			return nil, false
+		}
 		why := "without any injected fault"
 		if o.enc.AltFails+o.enc.BGFails > 0 {
 			why = fmt.Sprintf("although only tolerated codec failures were injected (alternate-codec %d, background-candidate %d)", o.enc.AltFails, o.enc.BGFails)
